@@ -1,2 +1,2 @@
-import AbacusVerif.Model.C16
-def main : IO Unit := AbacusVerif.driverMain AbacusVerif.ReadAsdf.handle
+import AbacusVerif.Model.C16Values
+def main : IO Unit := AbacusVerif.driverMain AbacusVerif.ReadAsdf.handleV
